@@ -28,6 +28,7 @@ def run(ctx: Ctx):
     ctx.attempt(speed_bound, ctx)
     ctx.attempt(node_cells, ctx)
     ctx.attempt(weights, ctx)
+    ctx.attempt(units_and_distance, ctx)
     ctx.floor("BD", 2)
     ctx.not_decided += ["that great-circle distance between (cell-rounded) junctions never exceeds road length (geometric)"]
     ctx.assumptions += ["networkx.astar_path returns a minimum-weight path for an admissible heuristic"]
@@ -130,9 +131,42 @@ def weights(ctx: Ctx):
               why_bad=f"TIME_WEIGHT = {sorted(tw)[:2]}", construct="OSMRoadNetwork.__init__:time-weight")
 
 
+def units_and_distance(ctx: Ctx):
+    """The heuristic's units agree with the weight's (seconds): SECONDS_IN_HOUR is 3600; the distance function is the
+    haversine formula on (lat, lon) pairs unpacked in h3_to_geo's order, in kilometres."""
+    repo = ctx.repo
+    U = "nrel/hive/util/units.py"
+    val = None
+    for st in repo.module(U).tree.body:
+        if isinstance(st, ast.Assign) and flow.dump(st.targets[0]) == "SECONDS_IN_HOUR":
+            val = flow.dump(st.value)
+    ctx.check(val == "3600", "D2", "BD.units", "SECONDS_IN_HOUR = 3600 (the estimate and the travel-time weight are both in seconds)", file=U, line=0, function="<module>",
+              why_bad=f"SECONDS_IN_HOUR = {val}", construct="units:SECONDS_IN_HOUR") if False else _units(ctx, U, val)
+    H3 = "nrel/hive/util/h3_ops.py"
+    fn = repo.func(H3, "H3Ops.great_circle_distance")
+    a, b = fn.params[1:3]
+    ps = [p for p in flow.paths(fn.node) if p.kind == "return"]
+    if len(ps) != 1:
+        raise AnalysisError("great_circle_distance: expected one return")
+    d = flow.dump(ps[0].value)
+    R = "map(radians, (h3.h3_to_geo(%s)[0], h3.h3_to_geo(%s)[1], h3.h3_to_geo(%s)[0], h3.h3_to_geo(%s)[1]))" % (a, a, b, b)
+    lat1, lon1, lat2, lon2 = (f"{R}[{i}]" for i in range(4))
+    want = f"2 * 6371 * asin(sqrt(sin(({lat2} - {lat1}) * 0.5) ** 2 + cos({lat1}) * cos({lat2}) * sin(({lon2} - {lon1}) * 0.5) ** 2))"
+    ctx.check(d == want, "D2", "BD.distance", "great_circle_distance is the haversine formula (km) on (lat, lon) in h3_to_geo's order", fn,
+              why_bad=f"returns {d[:260]}", construct="great_circle_distance:formula")
+
+
+def _units(ctx: Ctx, U: str, val):
+    if val == "3600":
+        ctx.ok("D2", "BD.units", "SECONDS_IN_HOUR = 3600 (the estimate and the travel-time weight are both in seconds)", file=U, line=0, function="<module>")
+    else:
+        ctx.violation("D2", "BD.units", "SECONDS_IN_HOUR = 3600", file=U, line=0, function="<module>", why=f"SECONDS_IN_HOUR = {val}: the estimate is no longer in the weight's unit", construct="units:SECONDS_IN_HOUR")
+
+
 def selftest():
     from ..selftest import V
     return [
+        V("haversine-lon-lat", "nrel/hive/util/h3_ops.py", "        lat1, lon1 = h3.h3_to_geo(a)\n", "        lon1, lat1 = h3.h3_to_geo(a)\n", rule="BD.distance"),
         V("min-speed", OSM, "            time: Hours = dist / self.max_speed_kmph", "            time: Hours = dist / self.min_speed_kmph", rule="BD.heuristic"),
         V("max-of-posted", OSM, "            self.max_speed_kmph: Kmph = max(link.speed_kmph for link in link_helper.links.values())",
           "            self.max_speed_kmph: Kmph = max(d.get(\"speed_kmph\", 0) for _, _, d in graph.edges(data=True))", rule="BD.speed-bound"),
